@@ -117,7 +117,8 @@ MODELLED = {
     # and deepens the correspondence run for the properties that depend on it)
     'lark/utils.py': ['small_factors', 'TextSlice.__post_init__', 'Serialize.serialize', 'Serialize.deserialize', '_serialize', '_deserialize'],
     'lark/load_grammar.py': ['EBNF_to_BNF._add_repeat_rule', 'EBNF_to_BNF._add_repeat_opt_rule', 'EBNF_to_BNF._generate_repeats', 'EBNF_to_BNF.expr',
-                             'GrammarBuilder._get_mangle' if False else 'GrammarBuilder.do_import'],
+                             'GrammarBuilder.do_import', '_get_mangle', '_mangle_definition_tree', 'GrammarBuilder._extend', 'GrammarBuilder._define', 'SimplifyRule_Visitor.expansion',
+                             'EBNF_to_BNF._add_rule', 'EBNF_to_BNF._add_recurse_rule', 'EBNF_to_BNF.maybe', 'FindRuleSize._will_not_get_removed'],
     'lark/lexer.py': ['LineCounter.feed', 'LineCounter.advance_to', 'LineCounter.from_text_slice', '_create_unless', 'Scanner._build_mres', 'Scanner.match', 'Scanner.search',
                       'BasicLexer.__init__', 'BasicLexer._build_scanner', 'BasicLexer.next_token', 'ContextualLexer.__init__', 'ContextualLexer.lex'],
     'lark/parsers/earley.py': ['Parser.predict_and_complete', 'Parser._parse', 'Parser.parse'],
